@@ -292,7 +292,7 @@ def run_case(case):
                                 df.write(json.dumps(dict(desc=desc, spec=spec, hist=[(h[0], h[4]) for h in hist])) + '\n')
             cells.add(json.dumps([kind, integ, sorted(k for k in spec['opts']), unsafe]))
         elif kind == 'merge':
-            integ = r.choice(['ias15', 'whfast', 'leapfrog', 'mercurius', 'trace', 'bs', 'saba'])
+            integ = r.choice(['ias15', 'whfast', 'leapfrog', 'mercurius', 'trace', 'bs', 'saba', 'janus', 'janus', 'eos'])
             rr = random.Random(r.getrandbits(40))
             sysd = gen.planetary_system(rr, rr.randint(2, 4), mass_lo=1e-5, mass_hi=1e-3, hill_sep=rr.choice([1.0, 2.0]), emax=0.02)
             pl = sysd['planets']
@@ -307,6 +307,12 @@ def run_case(case):
                     del opts[k]
             if integ == 'whfast':
                 opts['ri_whfast.coordinates'] = rr.choice(['jacobi', 'democraticheliocentric', 'whds', 'barycentric'])
+            grid_ = 0.0
+            if integ == 'janus':
+                # JANUS keeps its own integer copy of the coordinates: after a merger it has to follow the shrunken particle array
+                opts['ri_janus.scale_pos'] = 1e-16
+                opts['ri_janus.scale_vel'] = 1e-16
+                grid_ = 1e-16
             spec = dict(integrator=integ, system=sysd, opts=opts, dt=gen.inner_period(sysd) / 40.7, collision='direct', collision_resolve='merge')
             sim = gen.build_sim(spec)
             G = sim.G
@@ -353,9 +359,10 @@ def run_case(case):
                         add('merge:total-mass:%s' % integ, '%s: mass %r -> %r after %d mergers' % (desc, s0['M'], s['M'], N0 - sim.N))
                     dP = max(abs(s['P'][k] - s0['P'][k]) for k in range(3))
                     dX = max(abs(s['X'][k] - s0['X'][k] - s0['P'][k] * T) for k in range(3))
-                    if gt(dP, case['KP'] * EPS * s0['Sp'] * math.sqrt(n)):
+                    mtot_ = s0['M']
+                    if gt(dP, case['KP'] * EPS * s0['Sp'] * math.sqrt(n) + 64 * grid_ * mtot_ * N0):
                         add('merge:linear-momentum:%s' % integ, '%s: |dP| = %.3e = %.1f x eps S_p sqrt(n) after a merger at step %d' % (desc, dP, dP / (EPS * s0['Sp'] * math.sqrt(n)), step))
-                    if gt(dX, case['KP'] * EPS * (s0['Sx'] + s0['Sp'] * abs(T)) * math.sqrt(n)):
+                    if gt(dX, case['KP'] * EPS * (s0['Sx'] + s0['Sp'] * abs(T)) * math.sqrt(n) + 64 * grid_ * mtot_ * N0 * (1 + abs(T))):
                         add('merge:centre-of-mass-not-uniform:%s' % integ, '%s: |X_com - X0 - V t| = %.3e after a merger at step %d' % (desc, dX, step))
                     lastN = sim.N
                 if sim.N < 2:
